@@ -85,6 +85,49 @@ func (g *Gen) checkInvalidRefused(api, kind string, k int, oks []bool, res strin
 	}
 }
 
+// CheckEviction: when the pool was full and transactions were evicted, the evicted ones are those with
+// the LOWEST fee rates: no transaction that is gone may have paid a higher rate than one that stayed.
+// before = the pool as observed before the operation plus whatever the operation added; the
+// transactions are independent (no parent/child pairs) and none is confirmed or in conflict.
+func (g *Gen) CheckEviction(before1 []types.Transaction, before2 []types.V2Transaction, what string) {
+	w := g.W
+	if w.Panicked {
+		return
+	}
+	cs := w.Node.CM.TipState()
+	after := w.PoolIDs()
+	type rated struct {
+		id   types.TransactionID
+		rate types.Currency
+	}
+	var gone, kept []rated
+	for _, t := range before1 {
+		r := rated{t.ID(), t.TotalFees().Div64(cs.TransactionWeight(t))}
+		if after[r.id] {
+			kept = append(kept, r)
+		} else {
+			gone = append(gone, r)
+		}
+	}
+	for _, t := range before2 {
+		r := rated{t.ID(), t.MinerFee.Div64(cs.V2TransactionWeight(t))}
+		if after[r.id] {
+			kept = append(kept, r)
+		} else {
+			gone = append(gone, r)
+		}
+	}
+	w.Stats["evicted"] += len(gone)
+	for _, e := range gone {
+		for _, k := range kept {
+			if e.rate.Cmp(k.rate) > 0 {
+				w.C.Oracle("evicted-although-not-lowest-fee-rate", "%s: transaction %d (fee rate %v per weight unit) was evicted from the full pool while transaction %d (fee rate %v) stayed", what, w.Tx(e.id), e.rate, w.Tx(k.id), k.rate)
+				return
+			}
+		}
+	}
+}
+
 func (g *Gen) CheckAtomic(api string, kind string, k int, before map[types.TransactionID]bool, set []types.TransactionID, res string, standaloneValid bool) {
 	w := g.W
 	after := w.PoolIDs()
